@@ -94,6 +94,16 @@ func intBoundarySet(r *rand.Rand, nrand int, all16 bool) []*big.Int {
 			add(new(big.Int).Neg(v))
 		}
 	}
+	// magnitudes of 63/64/65, 128 and 512 bytes (writers switch from copying to referencing, readers
+	// from one buffer to several)
+	for _, k := range []uint{496, 503, 504, 505, 512, 1024, 4096} {
+		for d := int64(-2); d <= 2; d++ {
+			v := new(big.Int).Lsh(big.NewInt(1), k)
+			v.Add(v, big.NewInt(d))
+			add(v)
+			add(new(big.Int).Neg(v))
+		}
+	}
 	if all16 {
 		for i := int64(-65536); i <= 65536; i++ {
 			add(big.NewInt(i))
